@@ -25,6 +25,9 @@ const c17NameChars = "abcXYZ019._-"
 
 func randName(r *core.Rand, allowLeadingDot bool) string {
 	n := 1 + r.Intn(6)
+	if r.Intn(25) == 0 {
+		n = 60 + r.Intn(120) // long names (ticket-style branch and repository names): no length is special
+	}
 	var b strings.Builder
 	for i := 0; i < n; i++ {
 		ch := c17NameChars[r.Intn(len(c17NameChars))]
